@@ -262,8 +262,8 @@ prop("C14", level="proof",
             "the four extraction rewrite rules of v_num (raw-pointer writes -> Vec writes)"],
      not_covered=["the digits produced by the itoa crate for i128 / u128"])
 
-prop("C15", level="proof",
-     claim="bool: both values; char: every scalar value against the UTF-8 encoding written from the definition; String/&str: from_str contract; "
+prop("C15", level="other",
+     claim="PARTIAL - the constructors each dispatch arm calls are under contract for every value, the arm selection (castaway) and core::fmt are assumed. bool: both values; char: every scalar value against the UTF-8 encoding written from the definition; String/&str: from_str contract; "
            "LeanString: shallow clone (contract of Clone::clone; the dispatch arm itself is not run); generic Display: user Display emitting <= 3 pieces, failing after any piece or never => Err(Fmt) or "
            "the concatenation (bounded).",
      functions=["Repr::from_bool", "Repr::from_char", "ToLeanString::try_to_lean_string", "fmt::Write::write_str"],
